@@ -133,7 +133,7 @@ def check_path(path, A, minlen):
     return None
 
 
-HOPS = ('N1', 'N2', 'S', 'SK', 'R')
+HOPS = ('N1', 'N2', 'S', 'SK', 'SN', 'SKN', 'R')     # S*: kbest_matches_store, K = keep=True, N = restart=False
 
 
 def run_history(acc, E, cfg, hist, it_args):
@@ -216,14 +216,18 @@ def run_history(acc, E, cfg, hist, it_args):
                 if got != want:
                     return 'first match of a restarting iterator is %r, a fresh object gives %r' % (got, want), nmatches
         else:
-            keep = op == 'SK'
-            used.clear()              # kbest_matches_store iterates with restart=True
-            ms = lc.kbest_matches_store(k=2, minlen=2, buffer=0, restart=True, keep=keep)
+            keep = op in ('SK', 'SKN')
+            restart = op in ('S', 'SK')
+            was_clean = clean
+            if restart:
+                used.clear()          # restart=True: the mask is reset before the search
+            ms = lc.kbest_matches_store(k=2, minlen=2, buffer=0, restart=restart, keep=keep)
             new.extend((m, 2) for m in ms)
             got = [[(int(i), int(j)) for i, j in m.path] for m in ms]
-            want = fresh_store()
-            if got != want:
-                return 'kbest_matches_store (restart=True) returned %r, a fresh object gives %r' % (got, want), nmatches
+            if restart or was_clean:
+                want = fresh_store()
+                if got != want:
+                    return 'kbest_matches_store (%s) returned %r, a fresh object gives %r' % ('restart=True' if restart else 'nothing consumed yet', got, want), nmatches
             clean = not keep
         for m, minlen in new:
             nmatches += 1
@@ -238,7 +242,7 @@ def run_history(acc, E, cfg, hist, it_args):
             if why:
                 return why, nmatches
             used.update(path)
-        if op == 'S':
+        if op in ('S', 'SN'):
             used.clear()              # keep=False: the mask is reset afterwards
     return None, nmatches
 
@@ -336,8 +340,8 @@ def run(ctx):
     return core.finish(
         PROP, ctx.tier, ctx.seed, acc,
         rule='matrix: all series pairs (len 1..%d) x gamma{1,.5} x tau{0,.3,.7} x delta{0,-.5} x delta_factor{1,.5} x penalty{None,0,.1} x window{None,1,2} x only_triu, producers Python, C full, C compact + '
-             'wps_expand_slice (every slice for a quarter of the small pairs); histories: every sequence up to depth %d over {next(iterator 1), next(iterator 2), kbest_matches_store(keep=False), '
-             'kbest_matches_store(keep=True), reset+align} for 3 engines/layouts; non-trivial = tau branch taken or band/triangle active; history with >= 2 matches'
+             'wps_expand_slice (every slice for a quarter of the small pairs); histories: every sequence up to depth %d over {next(iterator 1), next(iterator 2), kbest_matches_store(keep x restart: 4 forms), '
+             'reset+align} for 3 engines/layouts; non-trivial = tau branch taken or band/triangle active; history with >= 2 matches'
              % (4 if ctx.thorough else 3, 4 if ctx.thorough else 3),
         bounds={'alphabet': list(univ.alphabet(univ.BASE3, ctx.seed)), 'history_data': '6 series pairs (2 self-comparisons, 2 with the best alignment in the part of the band that exists only because series 2 is longer) x 2 (tau,delta,delta_factor) x penalty{None,.1} x window{None,2} / {1,2}',
                 'iterator_args': 'k{None,1,2} x minlen{1,2} x buffer{0,-1,1 (not compact)} x restart{T,F}'},
